@@ -619,6 +619,31 @@ func c08Waiting(c *ctx, pr *Protocol) {
 		if len(okArrays) != want {
 			bad += fmt.Sprintf("covers %d ok arrays, expected %d; ", len(okArrays), want)
 		}
+		// the list is built in storage of its own: every append chain starts from a fresh make (or nil),
+		// never from a slice of the shared party list (appending to Ps[:0] overwrites the party list)
+		for _, cs := range core.Calls(wf) {
+			call, isCall := cs.(*ssa.Call)
+			if !isCall {
+				continue
+			}
+			if bi, isB := call.Call.Value.(*ssa.Builtin); !isB || bi.Name() != "append" {
+				continue
+			}
+			if why := appendRootFresh(call.Call.Args[0], map[ssa.Value]bool{}); why != "" {
+				bad += "the result list is appended into " + why + ": the shared party list is overwritten in place; "
+			}
+		}
+		for _, b := range wf.Blocks {
+			for _, in := range b.Instrs {
+				if st, isSt := in.(*ssa.Store); isSt {
+					if ia, isIA := st.Addr.(*ssa.IndexAddr); isIA {
+						if why := appendRootFresh(ia.X, map[ssa.Value]bool{}); why != "" {
+							bad += "WaitingFor stores into " + why + "; "
+						}
+					}
+				}
+			}
+		}
 		c.r.Check(bad == "", rule, key, c.fpos(wf), "WaitingFor records Ps[j] exactly on the ok[j]==false edge, for every j", bad)
 	} else {
 		c.r.Unk(rule, core.Key(rule, pr.Rel, "base.WaitingFor", "anchor"), pr.Rel, "WaitingFor not found")
@@ -711,6 +736,41 @@ func c08Waiting(c *ctx, pr *Protocol) {
 		}
 		c.r.Check(okAll && len(arrs) == want, rule, key, c.fpos(ro), "resetOK stores false into every element of every ok array", "resetOK does not clear every ok flag")
 	}
+}
+
+// appendRootFresh: "" when the slice value is rooted (through appends and phis) in a fresh
+// make/nil/array literal; otherwise a description of the shared storage it aliases.
+func appendRootFresh(v ssa.Value, seen map[ssa.Value]bool) string {
+	v = core.Strip(v)
+	if seen[v] {
+		return ""
+	}
+	seen[v] = true
+	switch x := v.(type) {
+	case *ssa.MakeSlice, *ssa.MakeMap, *ssa.Alloc:
+		return ""
+	case *ssa.Const:
+		return ""
+	case *ssa.Phi:
+		for _, e := range x.Edges {
+			if why := appendRootFresh(e, seen); why != "" {
+				return why
+			}
+		}
+		return ""
+	case *ssa.Call:
+		if bi, ok := x.Call.Value.(*ssa.Builtin); ok && bi.Name() == "append" {
+			return appendRootFresh(x.Call.Args[0], seen)
+		}
+		return "the result of " + core.CalleeShort(x)
+	case *ssa.Slice:
+		if a, ok := core.Strip(x.X).(*ssa.Alloc); ok {
+			_ = a
+			return "" // slice of a local array literal
+		}
+		return "a sub-slice of " + descr(x.X)
+	}
+	return descr(v)
 }
 
 // onlyErrorReturns: every return reachable from b has a non-nil last result (the *tss.Error).
